@@ -23,6 +23,18 @@ NOTES = (
 )
 
 CHECKS = {
+    "C01": {
+        "engine": "kani",
+        "technique": "bounded model checking (Kani/CBMC): lexer on every one-character input and limit; parser entry points only as concrete runs under a rowan contract stub",
+        "text": "the lexer never panics, overflows, slices out of bounds or fails to terminate on any input of at most one character "
+                "(1-4 bytes) under any token limit (compositional: first item + post-state, then the Eof step); the parser entry points "
+                "have no feasible symbolic dimension (measured) and appear only as three concrete witness runs that carry the known "
+                "finding 'parse_type panics without a single root node'.",
+        "design_ref": "DESIGN.md section 4, C01",
+        "note": "rowan's GreenNodeBuilder is replaced by a contract shadow in the parser runs (replayed against real rowan); inputs of "
+                "two or more characters, the parser on anything but the witness inputs, stack depth and the compiler-level entry points "
+                "are outside the claim.",
+    },
     "C03": {
         "engine": "kani",
         "technique": "bounded model checking (Kani/CBMC) of the lexer against the lexical grammar, compositional (first item + post-state, then Eof step)",
@@ -90,11 +102,10 @@ _S = "needs Schema/ExecutableDocument/DiagnosticList (IndexMap/HashMap + ahash):
 _P = "needs multi-token symbolic parser input: the lexer state machine costs ~10 min of CBMC per symbolic byte and rowan's builder does not finish even on the empty input"
 
 NOT_APPLICABLE = {
-    "C01": "check not built yet in this commit (planned: lexer 1 char + stubbed-rowan parser entry points)",
-    "C02": "conditional on the trailing-hole harness (DESIGN.md C02); default not applicable: " + _P,
+    "C02": "the lossless property is a statement about the parser's tree; measured: one symbolic input byte, a symbolic token limit or a symbolic recursion limit each exceed 15 min in the parser even with rowan stubbed; " + _P,
     "C05": "every grammar production needs >= 3 tokens of symbolic input; " + _P,
     "C06": "check not built yet in this commit (planned: unescape kernels on <= 4 bytes)",
-    "C07": "conditional on the trailing-hole harness (DESIGN.md C07); default not applicable: " + _P,
+    "C07": "needs parse_type / parse_selection_set on symbolic suffixes; measured: no symbolic dimension survives the parser (see C01/C02); " + _P,
     "C08": "parser + fmt pretty-printer + parser again; " + _P,
     "C09": "serialize_string_value writes through core::fmt::Formatter and the way back goes through the lexer; " + _P,
     "C11": "check not built yet in this commit (planned: get_line_column on <= 3 chars)",
